@@ -5,6 +5,7 @@ go 1.14
 require (
 	github.com/shiningrush/fastflow v0.0.0
 	github.com/shiningrush/goevent v0.1.0
+	github.com/stretchr/testify v1.6.1
 	go.mongodb.org/mongo-driver v1.5.4
 )
 
